@@ -228,6 +228,22 @@ CHECKS["C13"] = dict(
          "known findings are excluded from the generator and re-run as fixed reproducers.",
     technique="TLA+ operator grammar with printers and parser checked by TLC, every tree replayed through the real parser and formatter; round trip on corpus and generated modules")
 
+CHECKS["C19"] = dict(
+    category="model_checking",
+    text="TxSim.tla is the redeemer loop of eval_phase_two: redeemers in the transaction's order, script and datum looked up in what the "
+         "witnesses and resolved inputs provide, each script run against the budget left by the previous ones, first failure ends the "
+         "simulation. TLC checks the accounting and fails-iff invariants on every transaction of the bound and prints each outcome. Every "
+         "one is built as a real Conway transaction (pallas encoders; ledger indices computed by the harness from the sorting rule) and "
+         "given to eval_phase_two in three orders of resolved inputs / witness scripts / datums / body inputs / redeemer container. The "
+         "verdict, the reported units (equal to the cost of running the script directly, for scripts that ignore their arguments) and the "
+         "hand-over of the budget must be the specification's in every order. Picky scripts succeed only on their own redeemer, their own "
+         "datum and the right purpose, which binds the argument convention per language and the sorting of inputs, policies and accounts.",
+    design_ref="DESIGN.md section 6 C19",
+    note="No cost models are supplied (the `aiken tx simulate` path). Certificates, votes, proposals, PlutusV1 and the time range are "
+         "not exercised; the script context is not specified field by field. Which failure is reported when several are present is not "
+         "compared (the property does not say).",
+    technique="TLA+ model of the redeemer loop checked by TLC, every behaviour replayed as a real transaction under permutations")
+
 CHECKS["C15"] = dict(
     category="model_checking",
     text="UplcText.tla states the concrete syntax (the table of built-in names, type and constant syntax, Data syntax, string escapes) "
